@@ -124,7 +124,11 @@ class _Checker:
         for i, r in enumerate(hists):
             md = r["md"]
             cmds = ["top 2 %d %s" % (md["n"], " ".join(str(m) for m in md["mass"])), "map " + self.xmlfile(md)]
+            cur = md["mass"]
             for st in r["h"]:
+                if st["mass"] != cur:      # a parent mass changed after the map was created (Bead::setMass)
+                    cur = st["mass"]
+                    cmds.append("mass " + " ".join(str(m) for m in cur))
                 cmds.append(_frame_cmd(st["box"], [st["pos"], st["pos2"]], st["vel"], st["frc"], st["fl"]))
             items.append((i, cmds))
         results, crashes = vlib.run_items(self.exe, items)
@@ -153,10 +157,19 @@ class _Checker:
                 self.stats["ell_short"] = self.stats.get("ell_short", 0) + 1
             self.sticky = {}      # (bead index, what) -> an earlier frame of this object set that flag
             self.prev = None      # (step record, observation) of the previous accepted frame
+            k = 2
+            curm = r["md"]["mass"]
             for j, st in enumerate(r["h"]):
                 if j and st["fl"] != r["h"][j - 1]["fl"]:
                     self.stats["flagchange"] = self.stats.get("flagchange", 0) + 1
-                self.frame(r["md"], st["fl"], st, out[2 + j], rep, j)
+                if st["mass"] != curm:
+                    curm = st["mass"]
+                    k += 1               # the 'mass' command
+                    what = "masschange_between_applies" if j else "masschange_before_first_apply"
+                    if st["err"] != "yes":
+                        self.stats[what] = self.stats.get(what, 0) + 1
+                self.frame(r["md"], st["fl"], st, out[k], rep, j)
+                k += 1
                 if prevbox is not None and prevbox != st["box"]:
                     self.stats["boxchange"] += 1
                 prevbox = st["box"]
@@ -215,8 +228,8 @@ class _Checker:
                 ctx.violation("Apply:bead-order", "%s: found %s of molecule %d" % (tag, b["name"], b["mol"]), rep)
                 continue
             if not vlib.close(b["mass"], float(e["mass"]), 1e-12, 0):
-                ctx.violation("mass:%s" % sym, "%s: mass %r, expected the sum of the parent masses %d" %
-                              (tag, b["mass"], e["mass"]), rep)
+                ctx.violation("mass:%s" % sym, "%s: mass %r, expected the sum of the current parent masses %d (atom masses %s)" %
+                              (tag, b["mass"], e["mass"], st.get("mass", "")), rep)
             # flags: a value the parents carry in this frame must be there and right; when the parents do
             # not carry it, the CG bead of an object that had it in an earlier frame keeps flag and stale
             # value (never reset by the code, not specified anywhere): admitted, nothing asserted about it
@@ -685,7 +698,8 @@ def run(ctx):
         if not (st["err_yes"] and st["err_no"] and st["err_either"] and st["open"] and st["boxchange"]
                 and st["ops"].get("shift") and st["ops"].get("trans") and st.get("flagchange") and st.get("orient_u")
                 and st.get("orient_rel") and st.get("mixed_ignored") and st.get("mixed_unknown")
-                and st["ops"].get("remap")):
+                and st["ops"].get("remap") and st.get("masschange_between_applies")
+                and st.get("masschange_before_first_apply")):
             raise vlib.InfraError("vacuous history set: %s" % st)
 
         # ---- 4. executable level: csg_map gro -> gro -----------------------------------------------------------------
